@@ -225,7 +225,7 @@ func unmarshalUnknownValue(dec *msgpack.Decoder, ty cty.Type, path cty.Path) (re
 
 	builder := cty.UnknownVal(ty).Refine()
 	notNull := false
-	minLen, maxLen := -1, -2 // distinct placeholders for "not set"
+	minLen, maxLen := 0, math.MaxInt // the tightest length bounds seen so far
 	for i := 0; i < entryCount; i++ {
 		// Our refinement encoding format uses compact msgpack primitives to
 		// minimize the encoding size of refinements, which could otherwise
@@ -296,10 +296,14 @@ func unmarshalUnknownValue(dec *msgpack.Decoder, ty cty.Type, path cty.Path) (re
 			}
 			switch keyCode {
 			case unknownValLengthMin:
-				minLen = bound
+				if bound > minLen {
+					minLen = bound
+				}
 				builder = builder.CollectionLengthLowerBound(bound)
 			case unknownValLengthMax:
-				maxLen = bound
+				if bound < maxLen {
+					maxLen = bound
+				}
 				builder = builder.CollectionLengthUpperBound(bound)
 			default:
 				panic("unsupported keyCode") // should not get here
